@@ -112,7 +112,7 @@ func VerifC07LlamaSlots(nSlots, numCtx, nReq, maxPrompt, gen, multiUser int) {
 	vkSeqs = map[int][]vkCell{}
 	vkCanShift = verifChoice(2) == 1
 	vkPartialRm = verifChoice(2) == 1
-	ic, err := NewInputCache(nil, nSlots*numCtx, nSlots, multiUser != 0)
+	ic, err := NewInputCache(new(llama.Context), nSlots*numCtx, nSlots, multiUser != 0)
 	verifAssert(err == nil, "cache-created")
 	var held *InputCacheSlot
 	for r := 0; r < nReq; r++ {
